@@ -169,10 +169,13 @@ func (e *Extractor) extractPrefixes(re *syntax.Regexp, depth int) *Seq {
 		}
 		// Direct literal: "hello" → ["hello"]
 		bytes := runeSliceToBytes(re.Rune)
+		complete := true
 		if len(bytes) > e.config.MaxLiteralLen {
+			// a shortened literal is a prefix only, not the whole match
 			bytes = bytes[:e.config.MaxLiteralLen]
+			complete = false
 		}
-		return NewSeq(NewLiteral(bytes, true))
+		return NewSeq(NewLiteral(bytes, complete))
 
 	case syntax.OpConcat:
 		// Cross-product expansion through the entire concatenation.
